@@ -8,11 +8,13 @@ RULE = ("each obligation is one Kani/CBMC query: ONE real steel-rc operation (or
 
 QUICK = ["rc_base_new", "rc_step_clone", "rc_step_drop", "rc_step_get_mut", "rc_step_make_mut",
          "rc_step_try_unwrap", "rc_step_explicit_merge", "rc_packed_roundtrip"]
+# family 3: one foreign operation interleaved at one shared access of the analysed operation
+INTERLEAVED = ["rc_il_get_mut", "rc_il_clone", "rc_il_drop"]
 THOROUGH_EXTRA = []
 
 
 def check(pid, tier, seed):
-    return p_rc.check(pid, tier, seed, QUICK, THOROUGH_EXTRA,
+    return p_rc.check(pid, tier, seed, QUICK + INTERLEAVED, THOROUGH_EXTRA,
                       "destroyed exactly once and only after the last reference; exclusive access only to the sole holder")
 
 
